@@ -82,13 +82,20 @@ def chunks {α} (dim : Nat) : Nat → List α → List (List α)
     non-vector cell is padded with `dim` zeros, the `FixedSizeListArray` has `⌊total / dim⌋` rows (no
     remainder check, arrow-array `fixed_size_list_array.rs:155`; `0` rows when `dim = 0`), and
     `RecordBatch::try_new` rejects the batch when that differs from the row count. -/
+def vecCells (dim : Nat) : Value → List Nat
+  | .vec l => l
+  | _ => List.replicate dim 0
+def vec8Cells (dim : Nat) : Value → List Int
+  | .vec8 l => l
+  | _ => List.replicate dim 0
+
 def vecColumn (dim : Nat) (col : List Value) : Option (List Value) :=
-  let flat : List Nat := (col.map (fun v => match v with | .vec l => l | _ => List.replicate dim 0)).flatten
+  let flat : List Nat := (col.map (vecCells dim)).flatten
   let len := if dim == 0 then 0 else flat.length / dim
   if len == col.length then some ((chunks dim len flat).map Value.vec) else none
 
 def vec8Column (dim : Nat) (col : List Value) : Option (List Value) :=
-  let flat : List Int := (col.map (fun v => match v with | .vec8 l => l | _ => List.replicate dim 0)).flatten
+  let flat : List Int := (col.map (vec8Cells dim)).flatten
   let len := if dim == 0 then 0 else flat.length / dim
   if len == col.length then some ((chunks dim len flat).map Value.vec8) else none
 
